@@ -565,6 +565,9 @@ def c20_addressSize : Int := 20
 /-- has light/rpc/client.go Client.BlockchainInfo -/
 def c20_bcinfo_verifies_each : Bool := true
 
+/-- cond light/rpc/client.go Client.BlockByHash -/
+def c20_blockByHash_request_guard : String := "!bytes.Equal(res.BlockID.Hash, hash)"
+
 /-- cond light/rpc/client.go Client.BlockResults -/
 def c20_blockResults_hash_guard : String := "!bytes.Equal(rH, tH)"
 
@@ -576,6 +579,9 @@ def c20_blockResults_height_guard : String := "res.Height != h"
 
 /-- order light/rpc/client.go Client.Block -/
 def c20_block_order : List String := ["res.BlockID.ValidateBasic", "res.Block.ValidateBasic", "c.updateLightClientIfNeededTo"]
+
+/-- cond light/rpc/client.go Client.Block -/
+def c20_block_request_guard : String := "height != nil && res.Block.Height != *height"
 
 /-- const light/rpc/client.go defaultPerPage -/
 def c20_defaultPerPage : Int := 30
@@ -589,6 +595,9 @@ def c20_maxPerPage : Int := 100
 /-- has types/params.go HashConsensusParams -/
 def c20_paramsHash_only_block : Bool := true
 
+/-- has light/rpc/client.go Client.TxSearch -/
+def c20_txSearch_verifies : Bool := true
+
 /-- cond light/rpc/client.go Client.Tx -/
 def c20_tx_data_guard : String := "!bytes.Equal(res.Proof.Data, res.Tx)"
 
@@ -597,6 +606,9 @@ def c20_tx_hash_guard : String := "!bytes.Equal(txH, hash) || !bytes.Equal(res.H
 
 /-- has light/rpc/client.go Client.updateLightClientIfNeededTo -/
 def c20_update_uses_latest_trusted : Bool := true
+
+/-- cond crypto/merkle/proof_value.go ValueOp.Run -/
+def c20_valueOp_nil_root : String := "rootHash == nil"
 
 /-- cond consensus/state.go State.addVote -/
 def cons_addVote_nil_lastcommit_guard : String := "cs.LastCommit == nil"
@@ -631,6 +643,9 @@ def cs_proposal_keeps_signed_timestamp : Bool := true
 /-- order consensus/state.go State.signVote -/
 def cs_signVote_flush_first : List String := ["FlushAndSync", "SignVote"]
 
+/-- cond evidence/verify.go validateABCIEvidence -/
+def evpool_abci_nil_check : String := "validators == nil && len(ev.ByzantineValidators) != 0"
+
 /-- order evidence/pool.go Pool.AddEvidence -/
 def evpool_add_order : List String := ["evpool.isPending", "evpool.isCommitted", "evpool.verify", "evpool.addPendingEvidence"]
 
@@ -639,6 +654,12 @@ def evpool_baseKeyCommitted : Int := 0
 
 /-- const evidence/pool.go baseKeyPending -/
 def evpool_baseKeyPending : Int := 1
+
+/-- cond types/evidence.go LightClientAttackEvidence.GetByzantineValidators -/
+def evpool_byz_equiv_nil_guard : String := "val == nil"
+
+/-- has types/evidence.go LightClientAttackEvidence.GetByzantineValidators -/
+def evpool_byz_skip_nil : Bool := true
 
 /-- cond evidence/pool.go Pool.CheckEvidence -/
 def evpool_check_add_once : String := "!evpool.isPending(ev)"
@@ -649,6 +670,9 @@ def evpool_check_guard : String := "isLightEv || !evpool.isPending(ev)"
 /-- has evidence/pool.go Pool.isExpired -/
 def evpool_isExpired_both : Bool := true
 
+/-- order evidence/verify.go VerifyLightClientAttack -/
+def evpool_lca_order : List String := ["commonVals.VerifyCommitLightTrusting", "e.ConflictingHeaderIsInvalid", "e.ConflictingBlock.ValidatorSet.VerifyCommitLight", "validateABCIEvidence"]
+
 /-- order evidence/pool.go Pool.Update -/
 def evpool_update_order : List String := ["evpool.processConsensusBuffer", "evpool.updateState", "evpool.markEvidenceAsCommitted", "evpool.removeExpiredPendingEvidence"]
 
@@ -657,6 +681,12 @@ def evpool_update_prune : String := "evpool.Size() > 0"
 
 /-- cond evidence/verify.go Pool.verify -/
 def evpool_verify_expiry : String := "ageDuration > evidenceParams.MaxAgeDuration && ageNumBlocks > evidenceParams.MaxAgeNumBlocks"
+
+/-- cond evidence/reactor.go Reactor.prepareEvidenceMessage -/
+def evreactor_peer_behind : String := "peerHeight <= evHeight"
+
+/-- cond evidence/reactor.go Reactor.prepareEvidenceMessage -/
+def evreactor_too_old : String := "ageNumBlocks > params.MaxAgeNumBlocks"
 
 /-- const p2p/conn/connection.go defaultMaxPacketMsgPayloadSize -/
 def mconn_defaultMaxPacketMsgPayloadSize : Int := 1024
@@ -769,6 +799,6 @@ def types_MaxBlockPartsCount : Int := 1601
 /-- const types/vote_set.go MaxVotesCount -/
 def types_MaxVotesCount : Int := 10000
 
-def factCount : Nat := 256
+def factCount : Nat := 266
 
 end Tmv.Facts
